@@ -19,7 +19,7 @@ func init() {
 	run.Register(&run.Check{
 		ID:    "C06",
 		Level: "exploration",
-		Rule: expRule + "C06 oracle: (a) the workload/IP relation with the flag equals the relation without it, point-wise; (b) a workload is marked unprotected in a direction iff no policy governs it there (absence from ExposedPeers() = protected); (c) every entry is realizable: for each hypothetical pod satisfying its selectors (any pod for entire-cluster) the workload's direction-only verdict contains the entry's connections, a named port of an egress entry meaning that name as declared by the hypothetical pod; " +
+		Rule: expRule + "C06 oracle: (a) the workload/IP relation with the flag equals the relation without it, point-wise; (b) a workload is marked unprotected in a direction iff no policy governs it there (absence from ExposedPeers() = protected); (c) every entry is realizable - judged twice, by the reference model on hypothetical pods and, model-free, by ADDING a pod that satisfies the entry's selectors to the input as a real pod in a new policy-free namespace and re-running list: for each hypothetical pod satisfying its selectors (any pod for entire-cluster) the workload's direction-only verdict contains the entry's connections, a named port of an egress entry meaning that name as declared by the hypothetical pod; " +
 			"non-trivial = at least one non-entire-cluster exposure entry was judged; distinct = world hash",
 		Assumptions:       []string{"a residual named port in an INGRESS entry names a port the real workload does not declare and denotes no point", "exposure analysis is NetworkPolicy-only (the tool refuses admin policies)", "selectors are evaluated by our own matcher; the entry's selectors are read through the public ExposedPeer API, its named ports through the verif alias export"},
 		NumCases:          func(tier string, _ int64) int { return tierN(tier, 2000, 40000) },
@@ -27,7 +27,7 @@ func init() {
 		MinNonTrivial:     100,
 		MinEffectiveShare: 0.5,
 		RequiredEvents: map[string]int64{"hypothetical_pods": 1000000, "entries_judged": 2000, "entire_cluster_entries": 300, "selector_entries": 1000, "egress_entries_with_named_ports": 30,
-			"protected_flags_checked": 2000, "unprotected_directions": 300, "base_relation_points_compared": 20000, "worlds_policy_in_namespace_without_manifest_or_workloads": 10},
+			"protected_flags_checked": 2000, "unprotected_directions": 300, "base_relation_points_compared": 20000, "worlds_policy_in_namespace_without_manifest_or_workloads": 10, "real_pod_witness_runs": 200},
 	})
 	run.Register(&run.Check{
 		ID:    "C07",
@@ -232,6 +232,137 @@ func runExposure(c *run.Ctx, prop string) {
 		r.Ev("base_relation_points_compared", int64(n))
 	}
 	judgeExposure(c, w, exp, prop)
+	if prop == "C06" && c.Idx%3 == 0 && len(r.Violations) == 0 {
+		realWitness(c, w, exp)
+	}
+}
+
+// solveSel builds a label set satisfying a selector (nil if it cannot: contradictory requirements).
+func solveSel(s *world.Sel) map[string]string {
+	l := map[string]string{}
+	if s == nil {
+		return l
+	}
+	for k, v := range s.ML {
+		l[k] = v
+	}
+	for _, e := range s.ME {
+		switch e.Op {
+		case "In":
+			if _, ok := l[e.Key]; !ok && len(e.Vals) > 0 {
+				l[e.Key] = e.Vals[0]
+			}
+		case "Exists":
+			if _, ok := l[e.Key]; !ok {
+				l[e.Key] = "x"
+			}
+		}
+	}
+	if !refmodel.Match(s, l) {
+		// try the other values of In requirements
+		for _, e := range s.ME {
+			if e.Op == "In" {
+				for _, v := range e.Vals {
+					l[e.Key] = v
+					if refmodel.Match(s, l) {
+						return l
+					}
+				}
+			}
+		}
+		return nil
+	}
+	return l
+}
+
+// realWitness is the model-free half of the soundness oracle: a pod satisfying an entry's selectors is ADDED to the input as a real
+// pod in a new, policy-free namespace, list is run again, and the real connectivity between the workload and that pod must contain
+// the entry's connections (no reference model involved, only the selector solver).
+func realWitness(c *run.Ctx, w *world.World, exp *observe.ListResult) {
+	r := c.Res
+	done := 0
+	for _, ep := range exp.Exposed {
+		for di, ents := range [][]observe.XgressInfo{ep.Ingress, ep.Egress} {
+			ingress := di == 0
+			for ei := range ents {
+				e := &ents[ei]
+				if e.EntireCluster || done >= 3 {
+					continue
+				}
+				nsl := solveSel(e.NsSel)
+				pl := solveSel(e.PodSel)
+				if nsl == nil || pl == nil {
+					continue
+				}
+				nsName := "witness-ns"
+				if n, ok := nsl[world.MetaName]; ok {
+					if w.NsByName(n) != nil {
+						continue // pinned to an existing namespace: its policies would govern the witness pod too
+					}
+					nsName = n
+				}
+				if !refmodel.Match(e.NsSel, func() map[string]string {
+					m := map[string]string{world.MetaName: nsName}
+					for k, v := range nsl {
+						m[k] = v
+					}
+					return m
+				}()) {
+					continue
+				}
+				done++
+				v := w.Clone()
+				delete(nsl, world.MetaName)
+				v.Namespaces = append(v.Namespaces, world.Namespace{Name: nsName, HasObj: true, Labels: nsl})
+				pod := world.Workload{Ns: nsName, Name: "witness", Kind: world.KPod, Labels: pl}
+				// declare the entry's named ports on the witness pod (egress: the pod is the destination)
+				want := e.Conn.Clone()
+				num := 7001
+				if !ingress {
+					declared := map[string]bool{} // a pod declares a port name once, under one protocol
+					for _, pr := range []string{"SCTP", "TCP", "UDP"} {
+						for _, n := range e.Named[pr] {
+							if declared[n] {
+								continue
+							}
+							declared[n] = true
+							pod.Ports = append(pod.Ports, world.CPort{Num: num, Proto: pr, Name: n})
+							want.AddRange(pr, num, num)
+							num++
+						}
+					}
+				}
+				v.Workloads = append(v.Workloads, pod)
+				dir := c.Dir(fmt.Sprintf("witness%d", done))
+				if v.Write(dir, nil) != nil {
+					continue
+				}
+				res := observe.List(dir, observe.ListOpts{})
+				if res.Panic != "" || res.HasErr {
+					r.Ev("witness_runs_failed", 1)
+					continue
+				}
+				r.Ev("real_pod_witness_runs", 1)
+				rel := res.Relation()
+				src, dst := ep.Peer, pod.PeerString()
+				if ingress {
+					src, dst = dst, src
+				}
+				got := rel[[2]string{src, dst}]
+				if got == nil {
+					got = refmodel.NewConn()
+				}
+				if !want.SubsetOf(got) {
+					dn := "egress"
+					if ingress {
+						dn = "ingress"
+					}
+					r.Violate("c06.witness", "c06.witness:"+dn+":real-pod-lacks-entry-connections", "real connectivity "+src+" => "+dst+" contains the entry's "+want.String(),
+						got.String(), "entry "+entryStr(e)+" of "+ep.Peer+"; witness pod labels "+fmt.Sprint(pl)+" in namespace "+nsName+" labels "+fmt.Sprint(nsl))
+				}
+			}
+		}
+	}
 }
 
 // judgeExposure checks the exposure result of one run against the model (soundness/flags for C06, completeness for C07).
